@@ -899,6 +899,10 @@ class Interp(ExprMixin):
         return TRUE
 
     def _emit(self, owner, sink, term, loops, guards, node):
+        lst = self.heap.get((owner, "_z3_assertions"))
+        if isinstance(lst, PyList):
+            # an object built inside the analysed code: its assertion list is visible to a later drain in the same run
+            lst.items.append(Item(term, self._rel_loops(lst) + tuple(loops), self._rel_guards(lst) + tuple(guards)))
         self.emissions.append(Emission(owner, sink, term, self.eff_guards() + tuple(guards), self.loops + tuple(loops),
                                        self.site(node), self.stack(), tuple(self._via)))
 
